@@ -162,6 +162,19 @@ contract(f"{SWM}::SoftwareManager.uninstall", props=["C13", "C05"],
          # both loops leave (break) right after their only modification, so no iteration starts from a modified state
          loops={0: {"inv": [], "modifies": []}, 1: {"inv": [], "modifies": []}})
 inline("src/primaite/simulator/core.py::SimComponent.parent")
+# "... its open ports ... in agreement": the port table no longer has an entry for the uninstalled software.  In proof mode the two
+# search loops with this clause as invariant ran out of the time budget (9 min, undecided), so it is a bounded stand-in (K = 2).
+contract(f"{SWM}::SoftwareManager.uninstall#port_table", props=["C13"], bounded=2,
+         requires=["implies(software_name in self.software, registered(self, software_name) and isinstance(self.software[software_name], Application))",
+                   "self.node._application_request_manager is not self.node._service_request_manager",
+                   # install() files a piece of software under one key of the port table
+                   "forall(a, 0, len(self.port_protocol_mapping), forall(b, 0, len(self.port_protocol_mapping), implies(a != b,"
+                   " dict_val(self.port_protocol_mapping, a).name != dict_val(self.port_protocol_mapping, b).name)))",
+                   # ... and only software that is installed has an entry
+                   "forall(a, 0, len(self.port_protocol_mapping), dict_val(self.port_protocol_mapping, a).name in self.software)"],
+         ensures=[("port_entry_removed", "forall(j, 0, len(self.port_protocol_mapping), dict_val(self.port_protocol_mapping, j).name != software_name)"),
+                  ("other_port_entries_stay", "len(self.port_protocol_mapping) >= old(len(self.port_protocol_mapping)) - 1")],
+         modifies=["heap"], allocates=True)
 
 # ---- open ports ("software that is not running never ... keeps its port open") ------------------------------------------
 spec("sw_running(sw)", "sw.operating_state == ApplicationOperatingState.RUNNING or sw.operating_state == ServiceOperatingState.RUNNING")
